@@ -541,7 +541,8 @@ def q4(run, project):
             alt = [("yield", f"format({e}.type, {e}.path, b''.join(binary_unmarshal(({e},))), str({e}.value))")]
             # (the binary front-end's unmarshal of the one-event list is to_bytes(event): C02-B3)
             want2 = [("yield", f"format({e}.type, {e}.path, to_bytes({e}), {val})")]
-            run.ob("Q4", st_ is not None and (fx in (want, want2) or (not st_ and fx == alt)),
+            # (str(value) is NOT accepted: for handle types __str__ gives the bare number, __format__ the symbolic text - seed C14-agent5)
+            run.ob("Q4", st_ is not None and fx in (want, want2),
                    "pretty(): hex column is the binary re-encoding of exactly this event; value is its text form",
                    f"pretty() row construction changed: [{label}] gives {fx}", module=mod, node=pp.node or pr, func="pretty",
                    construct="pretty row" if len(fx) == 1 else "pretty yields")
